@@ -218,6 +218,7 @@ func main() {
 	algs := flag.String("algs", "gr,wb,sb,lb", "restrict E1/E3 to these rule sets")
 	flag.BoolVar(&allocFirst, "alloc-first", false, "ALLOC: also measure single first calls on fresh code points (search only)")
 	flag.StringVar(&allocFirstInput, "alloc-first-input", "", "ALLOC: replay single first calls on this input (hex)")
+	repoPath := flag.String("repo", "/repo", "path of the library source (for the official vectors in its test files)")
 	e2props := flag.String("props", "g,w,s,l,e,m,G,L,E", "restrict E2 to these lookups")
 	inputsFile := flag.String("inputs-file", "", "file with one hex input per line; replaces the corpus and, with -n 0, the generated stream")
 	stress := flag.Int("stress", 0, "concurrency stress with this many goroutines (no other stage runs); build with -race")
@@ -295,7 +296,7 @@ func main() {
 	var d *driver
 	needDriver := false
 	for _, s := range strings.Split(*stages, ",") {
-		if s == "E3" || s == "E4" || s == "E5" || s == "E6" || s == "SPEC" || s == "WIDTHSPEC" {
+		if s == "E3" || s == "E4" || s == "E5" || s == "E6" || s == "SPEC" || s == "WIDTHSPEC" || s == "VEC" {
 			needDriver = true
 		}
 	}
@@ -318,6 +319,8 @@ func main() {
 			res.Stages = append(res.Stages, stageE2(*driverPath, algSet(*e2props)))
 		case "E3":
 			res.Stages = append(res.Stages, stageE3(d, thorough, algSet(*algs)))
+		case "VEC":
+			res.Stages = append(res.Stages, stageVec(d, *repoPath))
 		case "E3c":
 			res.Stages = append(res.Stages, stageE3c())
 		case "E3b":
